@@ -37,17 +37,26 @@ PosRec(b, n) == CHOOSE rec \in PosIndex(b) : rec.n = n
 (* From the isotopomer model                                               *)
 (***************************************************************************)
 \* amount (or rate) carried by the isotopomers of c that are labelled at position i
-LabAmount(b, f, c, i) ==
-    FoldSet(LAMBDA rec, acc : acc + (IF rec.c = c /\ rec.bits[i] = 1 THEN f[rec.n] ELSE 0), 0, IsoIndex(b))
+\* (idx = IsoIndex(b): TLC does not memoise operator applications, so the index is built once per use)
+LabAmount(idx, f, c, i) ==
+    FoldSet(LAMBDA rec, acc : acc + (IF rec.c = c /\ rec.bits[i] = 1 THEN f[rec.n] ELSE 0), 0, idx)
 
 Enrich(b, y) ==
-    [n \in PosNames(b) |-> LET p == PosRec(b, n) IN Q!R(LabAmount(b, y, p.c, p.i), TotalOf(b, y, p.c))]
+    LET idx == IsoIndex(b)
+        tot == Totals(b, y)
+        pidx == PosIndex(b)
+    IN [n \in {r.n : r \in pidx} |-> LET p == CHOOSE r \in pidx : r.n = n IN Q!R(LabAmount(idx, y, p.c, p.i), tot[p.c])]
 
 IsSteadyAt(b, y) == \A c \in CpdSet(b) : BRhs(b, Totals(b, y))[c] = 0
 
-IsoEnrichRate(b, y) ==
-    LET d == LRhs(b, y, "occurrence")
-    IN [n \in PosNames(b) |-> LET p == PosRec(b, n) IN Q!R(LabAmount(b, d, p.c, p.i), TotalOf(b, y, p.c))]
+\* (d = LRhs(b, y, "occurrence"), passed in where it is already known)
+IsoEnrichRateD(b, y, d) ==
+    LET idx == IsoIndex(b)
+        tot == Totals(b, y)
+        pidx == PosIndex(b)
+    IN [n \in {r.n : r \in pidx} |-> LET p == CHOOSE r \in pidx : r.n = n IN Q!R(LabAmount(idx, d, p.c, p.i), tot[p.c])]
+
+IsoEnrichRate(b, y) == IsoEnrichRateD(b, y, LRhs(b, y, "occurrence"))
 
 (***************************************************************************)
 (* The linear model                                                        *)
@@ -89,10 +98,11 @@ LinRhs(b, pool, flux, e, x, mode) ==
                                 loss == IF t.out /\ t.src = n THEN e[n] ELSE Q!Zero
                             IN IF gain = Q!Zero /\ loss = Q!Zero THEN acc ELSE Q!RAdd(acc, Q!RSub(gain, loss)),
                          Q!Zero, terms[j])
-    IN [n \in PosNames(b) |->
+        pidx == PosIndex(b)
+    IN [n \in {r.n : r \in pidx} |->
           Q!RDiv(FoldFunction(LAMBDA j, acc : Q!RAdd(acc, Q!RMul(Q!RFromInt(flux[j]), Through(j, n))),
                               Q!Zero, [j \in DOMAIN b.rxns |-> j]),
-                 Q!RFromInt(pool[PosRec(b, n).c]))]
+                 Q!RFromInt(pool[(CHOOSE r \in pidx : r.n = n).c]))]
 
 \* a map that is its own inverse (a permutation m of the source positions with m[m[i]] = i)
 Involutive(b, r) ==
